@@ -136,6 +136,37 @@ SpecC == CInit /\ InitFor("fresh", TRUE) /\ [][CStep]_<<tvars, vars>>
 CAccepted == IF TLCGet("stats").diameter = N + 1 THEN TRUE
              ELSE PrintT(<<"STUCK", TLCGet("stats").diameter>>) /\ FALSE
 
+-----------------------------------------------------------------------------
+(* Loop-only conformance (SpecL): traces that hold only the monitor's own hook lines (begin / case / select /
+   exit / done), e.g. the repository's own order tests run with the hooks on.  Everything the environment and the
+   neighbours do is unobserved and composed as silent steps; a trace is accepted iff some interleaving of silent
+   steps explains every line (then the invariant LNotAtEnd is violated -- that is the acceptance signal). *)
+
+SilentPrices == {1, MaxPrice, MaxPrice + 1}
+
+Silent == \/ \E o \in Ops : CallStart(o)
+          \/ \E o \in Ops, r \in {"ok", "err", "yes", "no", "found", "notfound"}, p \in SilentPrices \cup {0} : Complete(o, r, p)
+          \/ \E k \in Kinds : Deliver(k)
+          \/ Shutdown
+          \/ FireTimer
+          \/ XUnresStart \/ XCloseStart
+          \/ \E r \in {"ok", "err"} : XUnresEnd(r) \/ XCloseEnd(r)
+
+LStep ==
+    /\ l <= N
+    /\ UNCHANGED <<olog, oours, obid, verd>>
+    /\ \/ Silent /\ UNCHANGED l
+       \/ /\ l' = l + 1
+          /\ CASE Line.e = "begin"  -> \E t \in BOOLEAN : Reset(Line.mode, t)
+               [] Line.e = "case"   -> CaseOf(Line.c)
+               [] Line.e = "select" -> pc = "loop" /\ Proj = LineProj /\ UNCHANGED vars
+               [] Line.e = "exit"   -> pc = "exit" /\ Proj = LineProj /\ UNCHANGED vars
+               [] Line.e = "done"   -> Finish
+
+SpecL == CInit /\ InitFor("fresh", TRUE) /\ [][LStep]_<<tvars, vars>>
+
+LNotAtEnd == l <= N
+
 \* the model-side C13 invariants along the recorded path (model and observation must agree)
 CModelProp == C13Bid /\ C13Released
 =============================================================================
